@@ -38,7 +38,16 @@ func (s *astate) rangeOf(b BitVec, signed bool) (srange, bool) {
 	}
 	if src, ok := plainSource(b); ok {
 		if f, has := s.sfacts[src]; has {
-			return srange{f[0], f[1]}, true
+			r := srange{f[0], f[1]}
+			if u, hasU := s.facts[src]; hasU && r.lo >= 0 {
+				if int64(u[0]) > r.lo && u[0] <= math.MaxInt64 {
+					r.lo = int64(u[0])
+				}
+				if u[1] <= math.MaxInt64 && int64(u[1]) < r.hi {
+					r.hi = int64(u[1])
+				}
+			}
+			return r, true
 		}
 		if f, has := s.facts[src]; has && f[1] <= math.MaxInt64 {
 			return srange{int64(f[0]), int64(f[1])}, true
@@ -81,6 +90,21 @@ func (s *astate) rangeOf(b BitVec, signed bool) (srange, bool) {
 	return srange{}, false
 }
 
+// satAdd adds with saturation at the ends of int64 (an end that is "unbounded" stays so).
+func satAddR(a, b int64) int64 {
+	if a == math.MinInt64 || a == math.MaxInt64 {
+		return a
+	}
+	c, ok := addOK(a, b)
+	if !ok {
+		if b > 0 {
+			return math.MaxInt64
+		}
+		return math.MinInt64
+	}
+	return c
+}
+
 func addOK(a, b int64) (int64, bool) {
 	c := a + b
 	if (b > 0 && c < a) || (b < 0 && c > a) {
@@ -104,19 +128,29 @@ func (s *astate) narrow(b BitVec, signed bool, lo, hi int64) {
 			}
 			switch d.op {
 			case token.ADD:
-				s.narrow(d.l, signed, lo-c, hi-c)
+				s.narrow(d.l, signed, satAddR(lo, -c), satAddR(hi, -c))
 			case token.SUB:
-				s.narrow(d.l, signed, lo+c, hi+c)
+				s.narrow(d.l, signed, satAddR(lo, c), satAddR(hi, c))
 			}
 		} else if k, isK := constOfBits(d.l); isK && d.op == token.ADD {
 			c := int64(k)
 			if signed {
 				c = signExt(k, len(d.l))
 			}
-			s.narrow(d.r, signed, lo-c, hi-c)
+			s.narrow(d.r, signed, satAddR(lo, -c), satAddR(hi, -c))
 		}
 	}
 	s.setRange(src, signed, lo, hi)
+}
+
+// exclude records src != v (used to trim interval ends now and later).
+func (s *astate) exclude(src string, v int64) {
+	ex := make(map[string][]int64, len(s.excl)+1)
+	for k, x := range s.excl {
+		ex[k] = x
+	}
+	ex[src] = append(append([]int64(nil), ex[src]...), v)
+	s.excl = ex
 }
 
 func (s *astate) setRange(src string, signed bool, lo, hi int64) {
@@ -131,6 +165,19 @@ func (s *astate) setRange(src string, signed bool, lo, hi int64) {
 		}
 		if hi < cur[1] {
 			cur[1] = hi
+		}
+		for changed := true; changed; {
+			changed = false
+			for _, x := range s.excl[src] {
+				if x == cur[0] && cur[0] < cur[1] {
+					cur[0]++
+					changed = true
+				}
+				if x == cur[1] && cur[0] < cur[1] {
+					cur[1]--
+					changed = true
+				}
+			}
 		}
 		s.sfacts[src] = cur
 		if cur[0] >= 0 {
@@ -215,22 +262,16 @@ func (ex *Exec) refineSigned(t, f *astate, op token.Token, l, r BitVec) bool {
 		}
 	case token.EQL:
 		t.narrow(x, true, c, c)
-		// x != c: only the ends of a known range can be cut
-		if rg, ok := f.rangeOf(x, true); ok {
-			if rg.lo == c && c < mx {
-				f.narrow(x, true, c+1, mx)
-			} else if rg.hi == c && c > mn {
-				f.narrow(x, true, mn, c-1)
-			}
+		// x != c: remembered; it trims the range whenever c is one of its ends
+		if src, ok := plainSource(x); ok {
+			f.exclude(src, c)
+			f.narrow(x, true, mn, mx)
 		}
 	case token.NEQ:
 		f.narrow(x, true, c, c)
-		if rg, ok := t.rangeOf(x, true); ok {
-			if rg.lo == c && c < mx {
-				t.narrow(x, true, c+1, mx)
-			} else if rg.hi == c && c > mn {
-				t.narrow(x, true, mn, c-1)
-			}
+		if src, ok := plainSource(x); ok {
+			t.exclude(src, c)
+			t.narrow(x, true, mn, mx)
 		}
 	default:
 		return false
@@ -276,7 +317,13 @@ func (ex *Exec) forkIntrinsic(s *astate, fr *aframe, x *ssa.Call) []*astate {
 		return n
 	}
 	k0, k1 := lenOf(rg.lo), lenOf(rg.hi)
-	if k1-k0 > 16 {
+	if k0 == k1 {
+		// one possible result: fold
+	} else if ex.ForkLen != nil {
+		if !ex.ForkLen(NameBits(a.Bits)) {
+			return nil
+		}
+	} else if k1-k0 > 12 {
 		return nil
 	}
 	w := widthOf(x.Type())
